@@ -23,14 +23,15 @@ theorem mem_zip_padTo {as : List Nat} {l : List (Option Nat)} {n a ll : Nat} (hm
 /-- the own nodes: the cell and everything behind the host's nodes -/
 def ownN (h : NNet) (c : Nat) (x : Nat) : Prop := x = c ∨ h.net.nodes.size ≤ x
 
-theorem substituteCore_cert (h : NNet) (c : Nat) (m : NNet) (sh : Shape) (dn : Nat)
-    (hw : WF h) (mw : WF m) (hc : c < h.net.nodes.size) (hio : c ∉ h.net.io) (hcf : (h.net.node c).isFork = false)
+theorem substituteCore_certR (h : NNet) (c : Nat) (m : NNet) (sh : Shape) (dn : Nat)
+    (hw : WFr h) (mw : WF m) (hc : c < h.net.nodes.size) (hio : c ∉ h.net.io) (hcf : (h.net.node c).isFork = false)
     (hs : implShape m = some sh) (hd : sh.des = some dn)
     (hdn : dn ∉ m.net.io) (hnd : m.net.io.Nodup) (hps : ∀ p ∈ m.net.io, isSeqKind (m.net.node p).kind = false)
     (hpf : ∀ p ∈ m.net.io, 0 < (m.net.node p).ins.length → 0 < (m.net.node p).outs.length → (m.net.node p).isFork = true)
     (hni : NoIgnored m (sh.inPorts.zip (padTo (h.net.node c).ins sh.inPorts.length)))
     (h5 : NNet) (map : Array (Option Nat)) (dang : List (Option Nat)) (he : substituteCore h c m = some (h5, map, dang)) :
-    SubstCert h c m sh dn map h5 := by
+    SubstCert h c m sh dn map h5 ∧
+    (∀ x, x < h5.net.nodes.size → ownN h c x → noTrail (h5.net.node x).ins = true ∧ noTrail (h5.net.node x).outs = true) := by
   obtain ⟨h2, net4, ren, net5, hil, hol, hfold, hci, hco, e⟩ := substituteCore_inv h c m sh hs h5 map dang he
   obtain ⟨hdnlt, hdnf⟩ := implShape_des m mw sh dn hs hd
   rw [hd] at hfold
@@ -311,32 +312,52 @@ theorem substituteCore_cert (h : NNet) (c : Nat) (m : NNet) (sh : Shape) (dn : N
     intro l hl1 hl2
     rw [pre.lsize] at hl2
     exact ⟨l - h.net.lines.size, by omega, by omega⟩
-  have hbackR : ∀ l, l < h5.net.lines.size → (h5.net.line l).reader < h5.net.nodes.size ∧
+  have hwrittenR : ∀ l x, l < h5.net.lines.size →
+      ((h.net.lines.size ≤ l ∧ l < h5.net.lines.size) ∨ ∃ k, instIn h c k = some l) →
+      (h5.net.line l).reader = x → ownN h c x → x < h5.net.nodes.size →
+      (h5.net.line l).reader < h5.net.nodes.size ∧
       (h5.net.node (h5.net.line l).reader).ins.getD (h5.net.line l).rpin none = some l := by
+    intro l x _ hW hx hown hlt
+    refine ⟨by rw [hx]; exact hlt, ?_⟩
+    rw [hnode5, hx]
+    exact (opF.ins x _ l hown).mpr ⟨hW, by rw [htR, hx]⟩
+  -- reader side: every line ends at a node; the copied lines and the host lines that point back in the host point back
+  have hrdrLt : ∀ l, l < h5.net.lines.size → (h5.net.line l).reader < h5.net.nodes.size := by
     intro l hl
-    have hwritten : ∀ x, ((h.net.lines.size ≤ l ∧ l < h5.net.lines.size) ∨ ∃ k, instIn h c k = some l) →
-        (h5.net.line l).reader = x → ownN h c x → x < h5.net.nodes.size →
-        (h5.net.line l).reader < h5.net.nodes.size ∧
-        (h5.net.node (h5.net.line l).reader).ins.getD (h5.net.line l).rpin none = some l := by
-      intro x hW hx hown hlt
-      refine ⟨by rw [hx]; exact hlt, ?_⟩
-      rw [hnode5, hx]
-      exact (opF.ins x _ l hown).mpr ⟨hW, by rw [htR, hx]⟩
     by_cases hlt : l < h.net.lines.size
-    · by_cases hrc : (h.net.line l).reader = c
-      · have hin : instIn h c (h.net.line l).rpin = some l := by
-          have := (hw.back l hlt).2.2.2
-          rw [hrc] at this; exact this
+    · by_cases hin : ∃ k, instIn h c k = some l
+      · obtain ⟨k, hin⟩ := hin
         obtain ⟨inn, r, rp, _, htg, e1, _⟩ := pre.inWire _ l hin
         obtain ⟨k', hk'⟩ := inTarget_map htg
-        exact hwritten r (Or.inr ⟨_, hin⟩) e1 (pre.mapGe k' r hk') (pre.mapLt k' r hk')
-      · obtain ⟨f1, f2⟩ := pre.rdrFrame l hlt hrc
-        obtain ⟨_, b2, _, b4⟩ := hw.back l hlt
-        rw [f1, f2, pre.frameNode _ b2 hrc]
-        exact ⟨Nat.lt_of_lt_of_le b2 pre.nsize, b4⟩
+        exact (hwrittenR l r hl (Or.inr ⟨_, hin⟩) e1 (pre.mapGe k' r hk') (pre.mapLt k' r hk')).1
+      · have hni' : l ∉ (h.net.node c).ins.filterMap id := fun hm => hin ((mem_filterMap_id _ l).mp hm)
+        have hr : (h5.net.line l).reader = (h.net.line l).reader := (fr.rdr l hlt hni').1
+        rw [hr]
+        exact Nat.lt_of_lt_of_le (hw.back l hlt).2.1 pre.nsize
     · obtain ⟨t, ht, e'⟩ := hsplit l (by omega) hl
       obtain ⟨_, xd, xr, _, h2r, hline⟩ := pre.new_fields t ht
-      exact hwritten xr (Or.inl ⟨by omega, hl⟩) (by rw [e', hline]) (pre.mapGe _ xr h2r) (pre.mapLt _ xr h2r)
+      exact (hwrittenR l xr hl (Or.inl ⟨by omega, hl⟩) (by rw [e', hline]) (pre.mapGe _ xr h2r) (pre.mapLt _ xr h2r)).1
+  have hbackR : ∀ l, l < h5.net.lines.size → (h.net.lines.size ≤ l ∨ PtsBack h l) → PtsBack h5 l := by
+    intro l hl hpb
+    show (h5.net.node (h5.net.line l).reader).ins.getD (h5.net.line l).rpin none = some l
+    by_cases hlt : l < h.net.lines.size
+    · have hpb : (h.net.node (h.net.line l).reader).ins.getD (h.net.line l).rpin none = some l := by
+        rcases hpb with hpb | hpb
+        · omega
+        · exact hpb
+      by_cases hrc : (h.net.line l).reader = c
+      · have hin : instIn h c (h.net.line l).rpin = some l := by
+          rw [hrc] at hpb; exact hpb
+        obtain ⟨inn, r, rp, _, htg, e1, _⟩ := pre.inWire _ l hin
+        obtain ⟨k', hk'⟩ := inTarget_map htg
+        exact (hwrittenR l r hl (Or.inr ⟨_, hin⟩) e1 (pre.mapGe k' r hk') (pre.mapLt k' r hk')).2
+      · obtain ⟨f1, f2⟩ := pre.rdrFrame l hlt hrc
+        have b2 := (hw.back l hlt).2.1
+        rw [f1, f2, pre.frameNode _ b2 hrc]
+        exact hpb
+    · obtain ⟨t, ht, e'⟩ := hsplit l (by omega) hl
+      obtain ⟨_, xd, xr, _, h2r, hline⟩ := pre.new_fields t ht
+      exact (hwrittenR l xr hl (Or.inl ⟨by omega, hl⟩) (by rw [e', hline]) (pre.mapGe _ xr h2r) (pre.mapLt _ xr h2r)).2
   have hbackD : ∀ l, l < h5.net.lines.size → (h5.net.line l).driver < h5.net.nodes.size ∧
       (h5.net.node (h5.net.line l).driver).outs.getD (h5.net.line l).dpin none = some l := by
     intro l hl
@@ -351,13 +372,13 @@ theorem substituteCore_cert (h : NNet) (c : Nat) (m : NNet) (sh : Shape) (dn : N
     by_cases hlt : l < h.net.lines.size
     · by_cases hrc : (h.net.line l).driver = c
       · have hout : instOut h c (h.net.line l).dpin = some l := by
-          have := (hw.back l hlt).2.2.1
+          have := (hw.back l hlt).2.2
           rw [hrc] at this; exact this
         obtain ⟨il, d, dp, _, htg, e1, _⟩ := pre.outWire _ l hout
         obtain ⟨k', hk'⟩ := outTarget_map htg
         exact hwritten d (Or.inr ⟨_, hout⟩) e1 (pre.mapGe k' d hk') (pre.mapLt k' d hk')
       · obtain ⟨f1, f2⟩ := pre.drvFrame l hlt hrc
-        obtain ⟨b1, _, b3, _⟩ := hw.back l hlt
+        obtain ⟨b1, _, b3⟩ := hw.back l hlt
         rw [f1, f2, pre.frameNode _ b1 hrc]
         exact ⟨Nat.lt_of_lt_of_le b1 pre.nsize, b3⟩
     · obtain ⟨t, ht, e'⟩ := hsplit l (by omega) hl
@@ -370,14 +391,14 @@ theorem substituteCore_cert (h : NNet) (c : Nat) (m : NNet) (sh : Shape) (dn : N
     · by_cases h2' : x < h.net.nodes.size
       · exact Or.inr ⟨h2', h1⟩
       · exact Or.inl (Or.inr (by omega))
-  have wf5 : WF h5 := by
-    refine ⟨by rw [hnames5, hN5]; exact iv.names, ?_, ?_, ?_, ?_, ?_, ?_⟩
+  have wf5 : WFr h5 := by
+    refine ⟨by rw [hnames5, hN5]; exact iv.names, ?_, ?_, ?_, ?_, ?_⟩
     · rw [keys_eq, (obs_of_pinsOnly h2 h5 po hnames5).1, ← keys_eq]; exact iv.nodup
     · intro i hi
       rw [pre.io'] at hi
       exact Nat.lt_of_lt_of_le (hw.io i hi) pre.nsize
     · intro l hl
-      exact ⟨(hbackD l hl).1, (hbackR l hl).1, (hbackD l hl).2, (hbackR l hl).2⟩
+      exact ⟨(hbackD l hl).1, hrdrLt l hl, (hbackD l hl).2⟩
     · intro x hx k l hp
       rcases hownOr x hx with hown | ⟨h1, h2'⟩
       · rw [hnode5] at hp
@@ -408,10 +429,37 @@ theorem substituteCore_cert (h : NNet) (c : Nat) (m : NNet) (sh : Shape) (dn : N
         obtain ⟨a1, a2, a3⟩ := hw.fwdOut x h1 k l hp
         obtain ⟨f1, f2⟩ := pre.drvFrame l a1 (by rw [a2]; exact h2')
         exact ⟨by rw [pre.lsize]; omega, f1.trans a2, f2.trans a3⟩
-    · intro x hx
-      rcases hownOr x hx with hown | ⟨h1, h2'⟩
-      · rw [hnode5]; exact opF.trail x hown
-      · rw [pre.frameNode x h1 h2']; exact hw.trail x h1
-  exact ⟨pre, wf5⟩
+  refine ⟨⟨pre, wf5, hbackR, ?_⟩, ?_⟩
+  · intro x k l hown hp hlt
+    rw [hnode5] at hp
+    rcases ((opF.ins x k l hown).mp hp).1 with hW | hW
+    · omega
+    · exact hW
+  · intro x _ hown
+    rw [hnode5]; exact opF.trail x hown
+
+/-- the circuit `substituteCore` builds from a well-formed host is well-formed -/
+theorem substituteCore_cert (h : NNet) (c : Nat) (m : NNet) (sh : Shape) (dn : Nat)
+    (hw : WF h) (mw : WF m) (hc : c < h.net.nodes.size) (hio : c ∉ h.net.io) (hcf : (h.net.node c).isFork = false)
+    (hs : implShape m = some sh) (hd : sh.des = some dn)
+    (hdn : dn ∉ m.net.io) (hnd : m.net.io.Nodup) (hps : ∀ p ∈ m.net.io, isSeqKind (m.net.node p).kind = false)
+    (hpf : ∀ p ∈ m.net.io, 0 < (m.net.node p).ins.length → 0 < (m.net.node p).outs.length → (m.net.node p).isFork = true)
+    (hni : NoIgnored m (sh.inPorts.zip (padTo (h.net.node c).ins sh.inPorts.length)))
+    (h5 : NNet) (map : Array (Option Nat)) (dang : List (Option Nat)) (he : substituteCore h c m = some (h5, map, dang)) :
+    SubstCert h c m sh dn map h5 ∧ WF h5 := by
+  obtain ⟨ct, htr⟩ := substituteCore_certR h c m sh dn hw.toWFr mw hc hio hcf hs hd hdn hnd hps hpf hni h5 map dang he
+  refine ⟨ct, ct.wf'.names, ct.wf'.nodup, ct.wf'.io, fun l hl => ?_, ct.wf'.fwdIn, ct.wf'.fwdOut, fun x hx => ?_⟩
+  · obtain ⟨b1, b2, b3⟩ := ct.wf'.back l hl
+    refine ⟨b1, b2, b3, ct.backR l hl ?_⟩
+    by_cases hlt : l < h.net.lines.size
+    · exact Or.inr (hw.ptsBack l hlt)
+    · exact Or.inl (by omega)
+  · by_cases hown : ownN h c x
+    · exact htr x hx hown
+    · have h1 : x < h.net.nodes.size := by
+        apply Classical.byContradiction; intro hn
+        exact hown (Or.inr (by omega))
+      have h2 : x ≠ c := fun e => hown (Or.inl e)
+      rw [ct.frameNode x h1 h2]; exact hw.trail x h1
 
 end KV.Transform
